@@ -17,7 +17,8 @@ TECHNIQUE = ("CFG reachability through atomic create (flag-consistent: an outcom
 EXPLANATION = (
     "Decides on the CFG of FilesystemLock.lock: (a) `self.locked = True` / `return True` are reachable only through the normal "
     "(non-raising) out-edge of symlink(str(os.getpid()), self.name), the atomic create, and locked is written True nowhere else; "
-    "every error of the create other than EEXIST is re-raised or answered False; (b) the stale-lock removal is guarded by "
+    "every error of the create other than EEXIST is re-raised or answered False; no return of lock() is reachable without passing the create "
+    "attempt (the answer is decided on disk, never by an in-memory fast path); (b) the stale-lock removal is guarded by "
     "EEXIST, by kill(int(readlink(self.name)), 0) failing with ESRCH exactly, and is followed by a retry of the create (never a "
     "direct claim); the removal itself is checked for an atomic hand-over: rmlink applied to the shared lock path after a "
     "separate readlink of that path is the check-then-act defect F50 (reported as known finding, schedule in "
@@ -104,6 +105,15 @@ def _s_lock(ctx, S):
             flag_search(g, [g.entry], [x], avoid=sets, edge_ok=no_exc, accept=not_false)
         ctx.check(w is None, "acquire/true-only-when-held", where, "lock() can report success without having created the link (and recorded locked)",
                   witness=g.describe(w))
+    # every answer is decided by the filesystem protocol: no return is reachable before the first attempt to create the link (an in-memory fast path -
+    # `if self.locked: return False` - answers from a flag that can disagree with the disk after a fork or a release through another object, and then the
+    # stale link is never broken)
+    for x in normal_exits(g):
+        st = g.node(x).ast
+        w = flag_search(g, [g.entry], [x], avoid=[cn])
+        ctx.check(w is None, "acquire/no-answer-before-the-create", ctx.construct(q, st) if st is not None else q + " | <end of function>",
+                  "lock() can answer without having attempted the atomic create: the answer comes from in-memory state, not from the link on disk - when "
+                  "they disagree (inherited / stale `locked`) lock() keeps answering and a stale lock is never acquired", witness=g.describe(w))
     # every failure of the create is EEXIST-handled, answered False, or re-raised: covered by through_create_only + this:
     h = catching_handler(cc, f, "OSError")
     ctx.check(h is not None, "acquire/create-errors-handled", q, "an existing lock (EEXIST) makes lock() raise instead of answering False / breaking a stale lock")
@@ -340,6 +350,9 @@ MUTANTS = [
            more=[(LF, "class FilesystemLock:\n", _TRY_CLASS % "\n            self.result = True")]),
     Mutant("method-object-outcome-ignored-when-recording-locked", LF, _LOCK_LOOP, _LOCK_BY_OBJECT.replace("        if attempt.result:\n", "        if attempt.result is not None:\n"),
            expect_rule="acquire/only-through-atomic-create", more=[(LF, "class FilesystemLock:\n", _TRY_CLASS % "")]),
+    # ---- round-4: no answer before the first create attempt
+    Mutant("answers-from-the-flag-when-a-link-is-there", LF, "        clean = True\n        while True:\n",
+           "        if self.locked and os.path.lexists(self.name):\n            return False\n        clean = True\n        while True:\n", expect_rule="acquire/no-answer-before-the-create"),
 ]
 SILENT = [
     Silent("errno-test-reversed", LF, "                        if e.errno == errno.ESRCH:", "                        if errno.ESRCH == e.errno:"),
